@@ -603,7 +603,9 @@ func main() {
 		}
 		f := families[rng.Intn(len(families))]
 		c := &caseDesc{Family: f.name, Variant: rng.Intn(12), Edit: edits[rng.Intn(len(edits))], Path: vk.PickS(rng, "whole-set", "per-resource")}
-		if c.Path == "per-resource" && (c.Edit == "other-resource-add" || c.Edit == "other-resource-remove" || c.Edit == "other-resource-modify") {
+		// (the per-resource path cannot edit another resource's rules - except in the associated-rule family, where the
+		// "other" resource is the referenced one and is loaded / cleared through its own per-resource calls)
+		if c.Path == "per-resource" && f.name != "flow-associated" && (c.Edit == "other-resource-add" || c.Edit == "other-resource-remove" || c.Edit == "other-resource-modify") {
 			c.Path = "whole-set"
 		}
 		if c.Edit == "stat-sharing-rule-modified-and-moved-before" && (f.name == "flow-throttling" || (f.name == "hotspot-qps" && c.Variant%2 == 1)) {
